@@ -21,7 +21,7 @@ RULE = ('cases are one key shape (primary + 0-3 subkeys, 1-2 identities with the
         'model in which the primary lacked the capability and a subkey had it, or nobody had it, or a re-binding had changed a '
         'subkey\'s capability; distinct = distinct (capability layout, operation, form, enforcement) tuples')
 TIERS = {'quick': {'runs': 4000, 'budget_s': 80}, 'thorough': {'runs': 200000, 'budget_s': 1500}}
-PROBES = ('second_recipient_same_algorithm_first', 'foreign_binding_added', 'locked_key_with_unprotected_subkey', 'last_identity_removed', 'unhashed_key_flags_added', 'recertify_without_issuer_fingerprint', 'subkey_used', 'primary_used', 'nobody_allowed_enforced', 'nobody_allowed_not_enforced', 'rebinding_changed_capability',
+PROBES = ('rebinding_without_key_flags', 'second_recipient_same_algorithm_first', 'foreign_binding_added', 'locked_key_with_unprotected_subkey', 'last_identity_removed', 'unhashed_key_flags_added', 'recertify_without_issuer_fingerprint', 'subkey_used', 'primary_used', 'nobody_allowed_enforced', 'nobody_allowed_not_enforced', 'rebinding_changed_capability',
           'recertify_changed_capability', 'same_second_rebinding', 'form_public', 'form_locked', 'form_unlocked', 'form_unprotected', 'form_copy',
           'no_identity_key', 'user_selected_identity', 'two_capable_subkeys', 'decrypt_by_subkey', 'encrypt_on_private_refused',
           'decrypt_stored_message', 'decrypt_stored_after_capability_lost')
@@ -48,7 +48,8 @@ def generate(rng, tier):
         r = rng.random()
         if r < 0.15 and subs:
             j = rng.randrange(len(subs))
-            u = rng.choice(['S', 'A', 'SA']) if world.can_sign(subs[j]['alg']) else rng.choice(['E', 'T', 'ET', 'A'])
+            # 'none': a binding made without usage= carries no Key Flags subpacket at all; being the most recent, it grants nothing
+            u = rng.choice(['S', 'A', 'SA', 'none']) if world.can_sign(subs[j]['alg']) else rng.choice(['E', 'T', 'ET', 'A'])
             steps.append({'id': sid, 'op': 'rebind', 'sub': j, 'usage': u})
         elif r < 0.27:
             steps.append({'id': sid, 'op': 'recertify', 'uid': rng.randrange(len(uids)), 'usage': rng.choice(['C', 'CS', 'S', 'CA', 'CSE' if palg.startswith('rsa') else 'CS']),
@@ -174,11 +175,17 @@ def execute(case, ctx):
             before = Model.latest(m.sub_flags[j])
             prev_t = max(r[0][0] for r in m.sub_flags[j])
             try:
-                sig = key.bind(sub_objs[j], usage=world.flags_from(step['usage']))
+                if step['usage'] == 'none':
+                    sig = key.bind(sub_objs[j])
+                else:
+                    sig = key.bind(sub_objs[j], usage=world.flags_from(step['usage']))
                 sub_objs[j] |= sig
             except Exception as e:
                 ctx.event(step['id'], 'rebind', 'raised', type(e).__name__)
                 continue
+            if step['usage'] == 'none':
+                step = dict(step, usage='')
+                ctx.probe('rebinding_without_key_flags')
             m.sub_flags[j].append((rank(), step['usage']))
             if prev_t // 1_000_000 == clock.us // 1_000_000:
                 ctx.probe('same_second_rebinding')
